@@ -497,8 +497,8 @@ def splice_fn(repo, file, item_path, sections, trait=None, nth=0, opts=(), canar
     # code of the function.  The receiver text must occur (else the anchor is lost).
     for dk in sorted(k for k in sections if k.startswith('desugar ')):
         want = [t.text for t in rs.tokenize(sections[dk]) if t.kind not in ('ws', 'comment', 'doc')]
-        if len(want) < 3 or want[-2] != '.' or want[-1] not in ('map', 'and_then', 'filter', 'any', 'find'):
-            raise AnchorLost('template: //@%s must end in .map / .and_then / .filter / .any / .find' % dk)
+        if len(want) < 3 or want[-2] != '.' or want[-1] not in ('map', 'and_then', 'filter', 'any', 'find', 'find_map'):
+            raise AnchorLost('template: //@%s must end in .map / .and_then / .filter / .any / .find / .find_map' % dk)
         method = want[-1]
         dk_words = dk.split()
         dk_id = dk_words[1]
@@ -541,6 +541,29 @@ def splice_fn(repo, file, item_path, sections, trait=None, nth=0, opts=(), canar
                 rules['X2f-any'] = rules.get('X2f-any', 0) + 1
                 dropped.append('%s:%d Iterator::any with an inline closure written as the loop it abbreviates (X2f)' % (file, toks[body_ci[pm]].line))
                 continue
+            if method == 'filter' and len(dk_words) > 2 and dk_words[2] == 'count':
+                # X2f (count): `ITER.filter(|PAT| BODY).count()` written as the counting loop it abbreviates
+                kk = re.sub(r'\W', '_', dk_id)
+                after = [k for k in body_ci if k > call_close][:4]
+                if len(after) < 4 or [toks[k].text for k in after] != ['.', 'count', '(', ')']:
+                    continue        # another `.filter(..)` on the same receiver, not the counted one
+                ed.ins_before(body_ci[p0], '({ let mut cv_any%s: usize = 0; %s let mut cv_ait%s = (' % (kk, sections.get('any_before ' + dk_id, '').strip(), kk))
+                ed.replace(body_ci[pm - 1], body_ci[q], ').into_iter(); while let Some(cv_item%s) = cv_ait%s.next() %s { %s if { let %s = &cv_item%s; ' % (
+                    kk, kk, sections.get('any_inv ' + dk_id, '').strip(), sections.get('any_body ' + dk_id, '').strip(), pat, kk))
+                ed.replace(call_close, after[3], ' } { cv_any%s = cv_any%s + 1; } } %s cv_any%s })' % (kk, kk, sections.get('any_after ' + dk_id, '').strip(), kk))
+                rules['X2f-count'] = rules.get('X2f-count', 0) + 1
+                dropped.append('%s:%d Iterator::filter(..).count() with an inline closure written as the loop it abbreviates (X2f)' % (file, toks[body_ci[pm]].line))
+                continue
+            if method == 'find_map':
+                # X2f (find_map): `ITER.find_map(|PAT| BODY)` written as the loop std defines it to be (the first Some the closure yields)
+                kk = re.sub(r'\W', '_', dk_id)
+                ed.ins_before(body_ci[p0], '({ let mut cv_any%s = None; %s let mut cv_ait%s = (' % (kk, sections.get('any_before ' + dk_id, '').strip(), kk))
+                ed.replace(body_ci[pm - 1], body_ci[q], ').into_iter(); while let Some(%s) = cv_ait%s.next() %s { %s if let Some(cv_v%s) = ' % (
+                    pat, kk, sections.get('any_inv ' + dk_id, '').strip(), sections.get('any_body ' + dk_id, '').strip(), kk))
+                ed.replace(call_close, call_close, ' { cv_any%s = Some(cv_v%s); break; } } %s cv_any%s })' % (kk, kk, sections.get('any_after ' + dk_id, '').strip(), kk))
+                rules['X2f-find_map'] = rules.get('X2f-find_map', 0) + 1
+                dropped.append('%s:%d Iterator::find_map with an inline closure written as the loop it abbreviates (X2f)' % (file, toks[body_ci[pm]].line))
+                continue
             if method == 'find' and not on_result and sections.get('any_inv ' + dk_id) is not None:
                 # X2f (find): `ITER.find(|PAT| BODY)` written as the loop std defines it to be (Iterator::find: the first element for
                 # which the closure — called with a reference to it — is true).  Chosen over the Option::filter reading of `.find` by
@@ -564,7 +587,12 @@ def splice_fn(repo, file, item_path, sections, trait=None, nth=0, opts=(), canar
                 ed.replace(body_ci[pm - 1], body_ci[q], ') { Some(%s) => (' % pat)
                 ed.replace(call_close, call_close, '), None => None })')
             else:
-                ed.replace(body_ci[pm - 1], body_ci[q], ') { Some(cv_v) => if { let %s = &cv_v; ' % pat)
+                m_ref = re.fullmatch(r'&\s*([A-Za-z_][A-Za-z0-9_]*)', pat)
+                if m_ref:
+                    # `|&x|`: the reference pattern (outside Verus) applied to `&cv_v` binds a copy of cv_v
+                    ed.replace(body_ci[pm - 1], body_ci[q], ') { Some(cv_v) => if { let %s = cv_v; ' % m_ref.group(1))
+                else:
+                    ed.replace(body_ci[pm - 1], body_ci[q], ') { Some(cv_v) => if { let %s = &cv_v; ' % pat)
                 ed.replace(call_close, call_close, ' } { Some(cv_v) } else { None }, None => None })')
             rules['X2d-' + method] = rules.get('X2d-' + method, 0) + 1
             dropped.append('%s:%d Option::%s with an inline closure written as the match it abbreviates (X2d)' % (file, toks[body_ci[pm]].line, method))
